@@ -46,7 +46,7 @@ def greens2d (east north mindist poisson : α) : α × α × α :=
   let distance := distance + mindist
   let ln_r := (lit 3 - poisson) * log distance
   let over_r2 := (lit 1 + poisson) / (distance * distance)
-  (ln_r + over_r2 * (north * north), ln_r + over_r2 * (east * east), -(over_r2 * east * north))
+  (ln_r + over_r2 * (north * north), ln_r + over_r2 * (east * east), (-over_r2) * east * north)
 
 /-- `CheckerBoard.predict`. -/
 def checker (amplitude wEast wNorth easting northing : α) : α :=
